@@ -307,8 +307,17 @@ def structured_history(r):
         "addr": -1, "alignment": -1, "bad": "none"})
     if r.random() < 0.3:
         do({"call": "align_to", "m": parent, "al": r.randint(0, 3)})
+    span = (1 << law) // (ratio if sparse != "true" else 1)
+    waddr = r.choice([-1, -1, -1, r.randrange(0, 1 << (law - 1), 1 << max(lal, 0))])
+    if r.random() < 0.35:
+        # an obstacle inside the span of an explicitly placed window, often in its very last addresses:
+        # the window must then be refused, whatever its ratio
+        waddr = r.randrange(8, 64, 1 << max(lal, 0))
+        rid += 1
+        do({"call": "add_resource", "m": parent, "res": rid, "name": tag(("obstacle",)), "size": 1,
+            "addr": waddr + max(0, span - r.choice([1, 1, 2, 3, span])), "alignment": -1, "bad": "none"})
     do({"call": "add_window", "m": parent, "w": 3, "name": tag(r.choice([None, ("leaf",)])),
-        "addr": r.choice([-1, -1, -1, r.randrange(0, 1 << (law - 1), 1 << max(lal, 0))]), "sparse": sparse, "bad": "none"})
+        "addr": waddr, "sparse": sparse, "bad": "none"})
     if via_middle:
         rid += 1
         do({"call": "add_resource", "m": 1, "res": rid, "name": tag(("top",)), "size": r.choice([1, 3, 6]),
